@@ -529,6 +529,12 @@ impl<'a> Interp<'a> {
                     let (searched, other_empty) = scan_next_search(&s, p, &compiled);
                     let step = if assertions {
                         if other_empty {
+                            // at the very start the remaining text is the whole subject: whatever
+                            // the restart context of an implementation, this arm matches the
+                            // empty string, and such a regex "raises an error at run time"
+                            if p == 0 {
+                                return self.err(ErrKind::EmptyRegexMatch, "a scan arm that does not win matched the empty string at the start of the subject".to_string(), env);
+                            }
                             return Err(Flow::Inconclusive("a non-winning scan arm matched the empty string".into()));
                         }
                         searched
